@@ -586,6 +586,26 @@ def set_item(interp, o, k, v):
             o[k] = v            # identity-keyed
             return
         return interp.native(operator.setitem, o, k, v)
+    from .values import SByteArray
+    if isinstance(o, SByteArray):
+        def byte(x):
+            if isinstance(x, (bool, SBool)) or not is_intlike(x):
+                interp.py_raise(TypeError, "an integer is required")
+            if not interp.test(And(x >= 0, x <= 255)):
+                interp.py_raise(ValueError, "byte must be in range(0, 256)")
+            return x
+        if isinstance(k, slice):
+            if contains_sym((k.start, k.stop, k.step)):
+                raise Unsupported("slice store with symbolic bounds into a bytearray")
+            vals = [byte(x) for x in interp.iterate(v)]
+            o.items[k] = vals
+            return
+        if is_sym(k):
+            k = sym.ctx().choose_int(k, "bytearray index")
+        if not -len(o.items) <= k < len(o.items):
+            interp.py_raise(IndexError, "bytearray index out of range")
+        o.items[k] = byte(v)
+        return
     if isinstance(o, bytearray):
         interp.check_mutation(o, "bytearray.__setitem__")
         if contains_sym((k, v)):
@@ -930,10 +950,20 @@ def b_bytes(interp, *args, **kwargs):
 
 
 def b_bytearray(interp, *args, **kwargs):
-    if contains_sym(args):
-        # a bytearray with symbolic content is modelled by an (immutable) symbolic bytes value
-        return b_bytes(interp, *args, **kwargs)
-    return interp.fresh(interp.native(bytearray, *args, **kwargs))
+    from .values import SByteArray
+    if kwargs or len(args) > 1:
+        return interp.fresh(interp.native(bytearray, *args, **kwargs))
+    if not args:
+        return SByteArray([])
+    a = args[0]
+    if isinstance(a, int) and not isinstance(a, bool):
+        if a < 0:
+            interp.py_raise(ValueError, "negative count")
+        return SByteArray([0] * a)
+    if is_sym(a):
+        raise Unsupported("bytearray of symbolic length")
+    v = b_bytes(interp, a)
+    return SByteArray(list(v.items) if isinstance(v, SBytes) else list(v))
 
 
 def b_list(interp, *args):
